@@ -266,6 +266,7 @@ class ClassParser(BaseParser):
 
             context = self.options.make_context(_obj_self.__class__, force_error=True)
             value = field.parse_value(value, context=context)
+            context.raise_error()  # collect_errors must not let an unparsed assignment through
             _obj_self.__dict__[field.attname] = value
             if callable(post_setattr):
                 post_setattr(_obj_self, field, value, context)
